@@ -76,6 +76,16 @@ type ProcResult struct {
 	Fired   []simos.Fault
 }
 
+// sessionLinks are the symbolic links of the session being set up (set by
+// fsFromSession; plain fsFromFiles callers have none).
+func fsFromSession(files []File, dirs []string, links [][2]string) *simos.FS {
+	fs := fsFromFiles(files, dirs)
+	for _, l := range links {
+		fs.Links[l[0]] = l[1]
+	}
+	return fs
+}
+
 func fsFromFiles(files []File, dirs []string) *simos.FS {
 	fs := simos.NewFS()
 	for _, f := range files {
@@ -166,6 +176,11 @@ func fsEqual(a, b *simos.FS) (bool, string) {
 		}
 	}
 	sort.Strings(names)
+	for _, n := range sortedKeys(a.Links, b.Links) {
+		if a.Links[n] != b.Links[n] {
+			return false, fmt.Sprintf("symbolic link %q points to %q, expected %q", n, a.Links[n], b.Links[n])
+		}
+	}
 	for _, n := range names {
 		x, okx := a.Files[n]
 		y, oky := b.Files[n]
@@ -240,4 +255,19 @@ func maskStamp(b []byte) []byte {
 		}
 	}
 	return []byte(strings.Join(lines, "\n"))
+}
+
+func sortedKeys(ms ...map[string]string) []string {
+	seen := map[string]bool{}
+	var out []string
+	for _, m := range ms {
+		for k := range m {
+			if !seen[k] {
+				seen[k] = true
+				out = append(out, k)
+			}
+		}
+	}
+	sort.Strings(out)
+	return out
 }
